@@ -219,6 +219,13 @@ def run(case):
 
 def _compiled(case, c, out, occ):
     from abacusnbody.hod import GRAND_HOD as RG
+    # The slice markers of the model are computed with the interpreted occupation functions; the compiled ones
+    # (LLVM erfc / pow) differ from them by a few 1e-16 relative, more than the 4..8 ulps at which "edge" hosts are
+    # placed.  The compiled cross-check therefore runs on the same case without hosts pinned to the markers.
+    plain = copy.deepcopy(case)
+    for obj in plain['halos'] + plain['parts']:
+        obj['edge'] = None
+    c = HR.prepare(plain)
     try:
         res = HR.flatten({t: dict(v) for t, v in HR.call(RG, c, case['Nthread']).items()})
     except Exception as e:
